@@ -257,3 +257,178 @@ def run(db, cx):
               "src/orange/OrangeData.hh",
               why="a flag the tracker branches on but nobody sets (or vice versa) silently selects "
                   "the wrong intersection/safety algorithm")
+
+    frame_agreement(db, cx, meths)
+
+
+# ------------------------------------------------------------ 6. frame agreement
+import re as _re
+
+LSA = D + "LevelStateAccessor::"
+FRAME_CALLS = {LSA + "pos", LSA + "dir", LSA + "vol", OTV + "pos", OTV + "dir",
+               OTV + "make_local_state"}
+
+
+def _norm(t):
+    return (t or "").replace("this->", "").replace(" ", "")
+
+
+def _level_key(f, pos, text, path, calls, refs):
+    """Which nesting level a value belongs to: ('var', name, defs) for a local/param
+    LevelStateAccessor, or ('level', <normalised level expression>)."""
+    text_n = _norm(text)
+    m = _re.search(r"make_local_state\((.*)\)$", text_n)
+    if m and OTV + "make_local_state" in calls:
+        return ("level", m.group(1))
+    m = _re.search(r"make_lsa\((.*?)\)\.\w+\(\)$", text_n)
+    if m and OTV + "make_lsa" in calls:
+        return ("level", m.group(1) or "level()")
+    if path and path["root"].startswith(("l:", "p:")) and path["chain"] and \
+            path["chain"][0].startswith("m:" + LSA):
+        var = path["root"][2:]
+        return _var_key(f, pos, var)
+    if (OTV + "pos" in calls or OTV + "dir" in calls) and not (set(calls) & {LSA + "pos", LSA + "dir"}):
+        return ("level", "LevelId{0}")      # the view's own pos()/dir() are the global frame
+    # a local holding e.g. `make_lsa(levelid).universe()`
+    for v in local_refs(refs):
+        if text_n == v:
+            ks = set()
+            for (_b, _i, d) in f.reaching_defs(v, pos):
+                k = _level_key(f, (_b, _i), d.get("rhs"), None, d.get("calls", []), d.get("refs", []))
+                ks.add(k)
+            if len(ks) == 1:
+                return ks.pop()
+    return None
+
+
+def _var_key(f, pos, var):
+    defs = f.reaching_defs(var, pos)
+    lv = set()
+    for (_b, _i, d) in defs:
+        m = _re.search(r"make_lsa\((.*)\)$", _norm(d.get("rhs")))
+        if m and OTV + "make_lsa" in d.get("calls", []):
+            lv.add(m.group(1) or "level()")
+    if len(lv) == 1:
+        return ("level", lv.pop(), var)
+    return ("var", var)
+
+
+def _same_level(a, b):
+    if a is None or b is None:
+        return False
+    if a[0] == "var" or b[0] == "var":
+        return a[0] == b[0] and a[1] == b[1]
+    return a[1] == b[1]
+
+
+def frame_agreement(db, cx, meths):
+    """Every value handed to a universe's tracker (position, direction, volume, local state)
+    comes from the same nesting level as the universe id the tracker is selected with."""
+    TV = C + "TrackerVisitor::operator()"
+    keyed = 0
+    for f in meths:
+        lambdas = {ev["loc"]: ev for (_b, _i, ev) in f.events("lambda")}
+        for (b, i, ev) in f.calls(TV):
+            a = ev.get("args", [])
+            if len(a) != 2:
+                continue
+            u = a[1]
+            ukey = _level_key(f, (b, i), u.get("t"), u.get("path"), u.get("calls", []), u.get("refs", []))
+            if ukey is None:
+                continue        # universe id not taken from a level state (initialisation walks)
+            keyed += 1
+            m = _re.search(r"\(lambda at [^:]*:(\d+):(\d+)\)", ev.get("sig", ""))
+            lam = None
+            if m:
+                for loc, lev in lambdas.items():
+                    if loc.endswith(":%s:%s" % (m.group(1), m.group(2))):
+                        lam = lev
+            if lam is None:
+                cx.ob("C03.6-frame-agreement", "%s tracker call @%s" % (f.name.split("::")[-1],
+                      short(ev["loc"]).split(":")[-1]), False,
+                      "cannot find the lambda passed to the tracker visitor", short(ev["loc"]))
+                continue
+            bad = []
+            seen_frame_value = False
+            for c in lam.get("captures", []):
+                ck = None
+                if c.get("init") is not None:
+                    if not (set(c.get("calls", [])) & FRAME_CALLS):
+                        continue
+                    ck = _level_key(f, (b, i), c["init"], c.get("path"), c.get("calls", []), c.get("refs", []))
+                elif "LSA" in c.get("ty", "") or "LevelStateAccessor" in c.get("ty", ""):
+                    ck = _var_key(f, (b, i), c["n"])
+                else:
+                    continue
+                seen_frame_value = True
+                if not _same_level(ck, ukey):
+                    bad.append("%s = %s is level %s" % (c["n"], c.get("init", "&" + c["n"]),
+                                                         ck[1] if ck else "?"))
+            # the body must not reach for the global-frame accessors either
+            for g in db.get(lam.get("callee", "")):
+                for (_b2, _i2, e2) in g.events("call"):
+                    if e2["callee"] in (OTV + "pos", OTV + "dir") and ukey[1] != "LevelId{0}":
+                        bad.append("lambda body reads the global-frame %s()" % e2["callee"].split("::")[-1])
+            cx.ob("C03.6-frame-agreement", "%s: values handed to the tracker of universe `%s` are from "
+                  "the same level [@%s]" % (f.name.split("::")[-1], _norm(u.get("t")),
+                                           short(ev["loc"]).split(":")[-1]),
+                  not bad, "; ".join(bad) if bad else
+                  ("level %s" % ukey[1] if seen_frame_value else "no position/direction captured"),
+                  short(ev["loc"]),
+                  why="each universe has its own coordinate frame: a position or direction from "
+                      "another level gives a wrong normal / distance / safety as soon as the daughter "
+                      "is placed with a non-identity transform")
+            # a vector returned by that tracker is in the frame of the same level: if it is then
+            # rotated up inside a loop over levels, the loop must cover exactly the levels above
+            nxt = f.blocks[b]["ev"][i + 1:i + 3]
+            vdef = [e for e in nxt if e["e"] == "def" and TV in e.get("calls", [])]
+            if not vdef or ukey[0] != "level":
+                continue
+            vec = vdef[0]["var"]
+            ups = []
+            for (_bl, _il, lev) in f.events("lambda"):
+                if not any(c["n"] == vec and c.get("byref") for c in lev.get("captures", [])):
+                    continue
+                body_calls = [e2["callee"] for g in db.get(lev.get("callee", ""))
+                              for (_x, _y, e2) in g.events("call")]
+                if any(c.endswith("::rotate_up") or c.endswith("::transform_up") for c in body_calls):
+                    holder = [d["var"] for (_x, _y, d) in f.events("def")
+                              if d.get("kind") == "decl" and d.get("loc", "").rsplit(":", 2)[0] ==
+                              lev["loc"].rsplit(":", 2)[0] and "lambda at" in d.get("ty", "")
+                              and d["ty"].endswith(":%s)" % ":".join(lev["loc"].rsplit(":", 2)[1:]))]
+                    ups += holder
+            for (b2, i2, e2) in f.calls(C + "TransformVisitor::operator()"):
+                a2 = e2.get("args", [])
+                if len(a2) != 2 or not a2[0].get("path") or a2[0]["path"]["root"][2:] not in ups:
+                    continue
+                # follow the loop variable back to the range it iterates over
+                frontier = set(local_refs(a2[1].get("refs", [])))
+                rng = None
+                for _ in range(5):
+                    nxtf = set()
+                    for v in frontier:
+                        for (_x, _y, d) in f.reaching_defs(v, (b2, i2)):
+                            if C + "range" in d.get("calls", []):
+                                rng = d
+                            nxtf |= set(local_refs(d.get("refs", [])))
+                    if rng or not nxtf:
+                        break
+                    frontier = nxtf
+                if rng is None:
+                    cx.ob("C03.6-frame-agreement", "%s: up-rotation of `%s` [@%s]" % (
+                        f.name.split("::")[-1], vec, short(e2["loc"]).split(":")[-1]), False,
+                        "cannot relate the up-rotation to a loop over levels", short(e2["loc"]))
+                    continue
+                lv = [c.split("::")[-1] + "()" for c in rng.get("calls", [])
+                      if c.startswith(OTV) and c.split("::")[-1] in ("level", "surface_level",
+                                                                      "next_surface_level")]
+                ok = lv == [ukey[1]] or (len(lv) == 1 and _norm(lv[0]) == ukey[1])
+                cx.ob("C03.6-frame-agreement", "%s: `%s` (frame of level %s) is rotated up through "
+                      "exactly the levels above it [@%s]" % (f.name.split("::")[-1], vec, ukey[1],
+                                                            short(e2["loc"]).split(":")[-1]),
+                      ok, "loop range: %s" % _norm(rng.get("rhs")), short(e2["loc"]),
+                      why="rotating a vector of level k by the placement transforms of deeper "
+                          "levels (or too few levels) leaves it in no frame at all: the inside/"
+                          "outside decision of set_dir is then wrong whenever a daughter below "
+                          "the surface is placed with a rotation")
+    cx.floor("tracker calls selected by a level's universe id", keyed, 4)
